@@ -204,6 +204,8 @@ fn families(names: &[i32], rng: &mut ChaCha8Rng, budget: usize) -> Vec<Vec<Vec<i
 }
 
 pub const RESOLUTIONS: [(i64, i64); 3] = [(1, 1), (1, 2), (2, 1)];
+/// Louvain is also run with a low resolution: it merges further and reaches more aggregation levels.
+pub const LOUVAIN_RESOLUTIONS: [(i64, i64); 4] = [(1, 1), (1, 2), (2, 1), (1, 5)];
 
 pub fn suite_partitions(g: &G, rng: &mut ChaCha8Rng, budget: usize) -> Value {
     let names: Vec<i32> = { let mut v: Vec<i32> = g.get_all_node_names().into_iter().copied().collect(); v.sort(); v };
@@ -284,7 +286,7 @@ pub fn louvain_calls(g: &G, seeds: i64, full: bool) -> Vec<Value> {
     let modes: Vec<bool> = if g.edges_have_weight() && !g.get_all_edges().is_empty() { vec![false, true] } else { vec![false] };
     for weighted in modes {
         for seed in 0..seeds {
-            let (rn, rd) = RESOLUTIONS[(seed as usize) % if full { 3 } else { 1 }];
+            let (rn, rd) = LOUVAIN_RESOLUTIONS[(seed as usize) % if full { 4 } else { 1 }];
             let thr: i64 = match seed % 3 { 0 => -1, 1 => 0, _ => 1_000_000 };
             calls.push(json!({"weighted": weighted, "res": [rn, rd], "res_default": (rn, rd) == (1, 1) && seed % 2 == 0,
                 "threshold_e7": if full { thr } else { -1 }, "seed": seed}));
